@@ -85,7 +85,33 @@ func NewDomConverter(flags ConverterFlag, builder webdoc.DocumentBuilder, pageUR
 
 func (dc *DomConverter) Convert(root *html.Node) {
 	clone := dom.Clone(root, true)
+	unwrapLiteralTextInForeignContent(clone)
 	domutil.WalkNodes(clone, dc.visitNodeHandler, dc.exitNodeHandler)
+}
+
+// unwrapLiteralTextInForeignContent makes sure that text never comes back as markup when
+// the output is parsed again. The text of the elements in literalTextElements is written
+// out as it is by the HTML serializer, which is only read back the same way when they are
+// HTML elements. Inside <svg> and <math> they are ordinary elements, whose text holds
+// whatever the page has escaped there. So in there <script> and <style> are removed, and
+// the other ones are replaced by their children, whose text is escaped like any other.
+func unwrapLiteralTextInForeignContent(root *html.Node) {
+	for _, tagName := range literalTextElements {
+		for _, elem := range dom.GetElementsByTagName(root, tagName) {
+			if elem.Parent == nil || !domutil.HasAncestor(elem, "svg", "math") {
+				continue
+			}
+
+			if tagName != "script" && tagName != "style" {
+				for _, child := range dom.ChildNodes(elem) {
+					elem.RemoveChild(child)
+					elem.Parent.InsertBefore(child, elem)
+				}
+			}
+
+			elem.Parent.RemoveChild(elem)
+		}
+	}
 }
 
 func (dc *DomConverter) visitNodeHandler(node *html.Node) bool {
